@@ -1,5 +1,6 @@
 import Pyrtma.Drv.Util
 import Pyrtma.Spec.HashText
+import Pyrtma.Model.YamlDef
 /-! Line-protocol driver for M8 (grammar: harness/hash_corr.py). -/
 namespace Pyrtma.Drv.HashText
 open Pyrtma.HashText Pyrtma.Drv
@@ -56,6 +57,7 @@ structure Outs where
 structure Case where
   id : String := ""
   sha : Option (List Nat × String) := none
+  src : Option (List (List Char)) := none       -- the physical lines of the definition as written in the file
   outs : Option Outs := none
   d : Option Def := none
   a : Identity := default
@@ -98,9 +100,15 @@ def finishCase (c : Case) : List String :=
         else s!"{c.id} CORR diff outputs model={repr h32} differing={bad} versions={badv}"),
        s!"{c.id} PROP C13 {judgeOutputs o.p o.py o.c o.js o.m o.versions}"]
     | _, _ => []
+  let loader := match c.d, c.src with
+    | some d, some ls =>
+      -- source lines -> loaded value (Model/YamlDef.lean) must be the definition the text and hash were computed from
+      let got := YamlDef.loadDef d.kind ls
+      [if got == some d then s!"{c.id} CORR ok" else s!"{c.id} CORR diff loader model={repr got} harness={repr d}"]
+    | _, _ => []
   let prop := if c.hasPair then [s!"{c.id} PROP C13 {judgePair c.a c.b c.ha c.hb}"]
               else if c.outs.isSome then [] else [s!"{c.id} PROP C13 skip"]
-  corr ++ outs ++ prop
+  corr ++ loader ++ outs ++ prop
 
 def step (c : Case) (line : String) : Case × List String :=
   match toks line with
@@ -111,6 +119,7 @@ def step (c : Case) (line : String) : Case × List String :=
   | ["KEY", "a", sig, name, id, fs] => ({ c with a := parseIdent sig name id fs, hasPair := true }, [])
   | ["KEY", "b", sig, name, id, fs] => ({ c with b := parseIdent sig name id fs }, [])
   | ["OBS", raw, ha, hb] => ({ c with raw := raw, ha := ha, hb := hb }, [])
+  | "SRC" :: ls => ({ c with src := some (ls.map (fun h => if h == "-" then [] else unhexS h)) }, [])
   | ["SHA", bytes, want] => ({ c with sha := some (if bytes == "-" then [] else unhexBytes bytes.toList, want) }, [])
   | ["SHAT", text, want] => ({ c with sha := some (Sha256.utf8 (if text == "-" then [] else unhexS text), want) }, [])
   | ["OUTS", raw, full, py, cc, js, m, vs] =>
